@@ -103,6 +103,7 @@ class Interp:
         self.local_models = {}       # workspace callee key -> model (assume-guarantee summaries supplied by a rule)
         self.purefun = {}            # canonical result variable of a pure integer function -> its argument variables
         self.snapshots = {}
+        self.reached = set()         # (body key, block) executed in some context
         self.path_sensitive = False  # decision-table runs: branches outside loops are recorded on the path
         self.def_models = {}         # trait method def path -> summary used for calls on trait objects of unknown type
         self.track_content = False   # content-tracking mode: input sequences are identified, copies keep the identity
@@ -297,6 +298,24 @@ class Interp:
         repeated reads agree and facts about it survive to the return states.  Element stores bump the generation."""
         if not isinstance(sv, Seq) or p["k"] == "subslice":
             return None
+        if self.track_content and src_atom(sv.content()) and not (p["k"] == "cidx" and p.get("from_end")):
+            # a byte of an identified (immutable) content: one variable per (content, offset), whatever window it is read through
+            et0 = fr.body.ty(pl["ty"])
+            if int_range(et0) == (0, 255):
+                w_ = sv.content()
+                if p["k"] == "cidx":
+                    ix_ = Lin.const(p["off"])
+                else:
+                    iv0 = st.cells.get(self.cell_of(fr, p["l"]))
+                    ix_ = iv0.e if isinstance(iv0, Num) else None
+                if ix_ is not None and not str(w_[0]).startswith("@"):
+                    off_ = w_[1] + ix_
+                    name = "rd8@%s+%r" % (w_[0], st.sys.reduce(off_))
+                    e = Lin.var(name)
+                    st.sys.add_range(e, 0, 255)
+                    self.purefun[name] = set(off_.t)
+                    self.contents.setdefault("bytes", {})[name] = (w_[0], off_)
+                    return Num(e)
         if len(sv.len.t) != 1 or sv.len.c != 0:
             return None
         (lv, k_), = sv.len.t.items()
@@ -331,6 +350,11 @@ class Interp:
         st.sys.add_range(e, r[0], r[1])
         if not idx.isdigit():
             self.purefun[name] = {lv} | {v for v in (st.sys.reduce(iv.e).t if isinstance(iv, Num) else ())}
+        if self.track_content and src_atom(sv.content()) and r == (0, 255):
+            # which byte of which identified content this variable stands for
+            w_ = sv.content()
+            ix_ = Lin.const(p["off"]) if p["k"] == "cidx" else iv.e
+            self.contents.setdefault("bytes", {})[name] = (w_[0], w_[1] + ix_)
         return Num(e)
 
     def element_value(self, st, sv, ix, et):
@@ -1490,6 +1514,10 @@ class Interp:
         return parts
 
     def exec_block(self, st, fr, bb, part):
+        self.reached.add((fr.body.key, bb))
+        return self._exec_block(st, fr, bb, part)
+
+    def _exec_block(self, st, fr, bb, part):
         """-> list of (succ bb | None, state, retval)"""
         body = fr.body
         blk = body.blocks[bb]
